@@ -40,3 +40,13 @@ C14_THREAD_DECLARATIONS = {
 }
 # the records that (re)name a process: the name record follows its data record on the same thread
 C14_PROCESS_NAMINGS = {'TRACE_STRING_NEWTHREAD': 'last_data_newthread', 'TRACE_STRING_EXEC': 'last_data_exec'}
+
+# C18: parameters that Darwin's headers give symbolic names to, by decoder and parameter position, and the table of names
+# (from the syscall signatures: sigaction(int sig, ...), socket(int domain, int type, int protocol), socketpair(...)).
+C18_NAMED_PARAMETERS = {
+    ('BSC_sigaction', 0): 'Signals',
+    ('BSC_socket', 0): 'AddressFamily', ('BSC_socket', 1): 'SocketKind',
+    ('BSC_socketpair', 0): 'AddressFamily', ('BSC_socketpair', 1): 'SocketKind',
+    ('BSC_socket_delegate', 0): 'AddressFamily', ('BSC_socket_delegate', 1): 'SocketKind',
+}
+C18_TABLES = {'Signals': 'SIGNALS', 'AddressFamily': 'ADDRESS_FAMILIES', 'SocketKind': 'SOCKET_TYPES'}       # class -> spec/darwin.py table
